@@ -70,6 +70,18 @@ fn check_mapper(rng: &mut Rng, res: &mut CaseResult) {
             pal.get_mut(&b).unwrap().rgba = [c[0], c[1], c[2], pal[&b].rgba[3]];
         }
     }
+    if rng.chance(1, 2) {
+        // pure black / white are the most common palette entries in practice
+        let keys: Vec<u32> = pal.keys().cloned().collect();
+        let k = *rng.pick(&keys);
+        pal.get_mut(&k).unwrap().rgba = [0, 0, 0, *rng.pick(&[255u8, 255, 128])];
+        if keys.len() > 1 && rng.chance(1, 2) {
+            let k2 = *rng.pick(&keys);
+            if k2 != k {
+                pal.get_mut(&k2).unwrap().rgba = [255, 255, 255, 255];
+            }
+        }
+    }
     let ase = match load_palette(rng, &pal) {
         Some(a) => a,
         None => {
@@ -134,9 +146,14 @@ fn check_mapper(rng: &mut Rng, res: &mut CaseResult) {
     // to_indexed_image: dimensions + row-major order
     let (w, h) = if rng.chance(1, 20) { if rng.chance(1, 2) { (rng.range(256, 400) as u32, 1) } else { (2, rng.range(256, 400) as u32) } } else { (rng.range(1, 12) as u32, rng.range(1, 12) as u32) };
     let mut img = RgbaImage::new(w, h);
+    let lead = rng.below(4);
     for y in 0..h {
         for x in 0..w {
-            let q = *rng.pick(&queries);
+            let mut q = *rng.pick(&queries);
+            // images often start with a run of black (or transparent, then black) pixels
+            if y == 0 && (x as u64) < lead {
+                q = if lead == 3 && x == 0 { [0, 0, 0, 0] } else { [0, 0, 0, 255] };
+            }
             img.put_pixel(x, y, image::Rgba(q));
         }
     }
